@@ -289,7 +289,8 @@ pub fn gen_c07(r: &mut Rng, id: u64, thorough: bool) -> Value {
     let mut open: Vec<(u64, String)> = vec![];
     let mut exists: Vec<String> = vec!["default".into()];
     for _ in 0..len {
-        let choice = r.below(24);
+        // profile creation / removal are frequent enough that most histories remove a profile and create another afterwards
+        let choice = match r.below(30) { 0 | 1 => 0, 2..=4 => 2, 5 | 6 => 3, 7 => 4, x => x - 3 };
         if open.is_empty() || choice == 0 || choice == 1 {
             // open a session on some profile name (existing or not)
             let p = r.pick(&pnames).to_string();
